@@ -245,6 +245,7 @@ int main(int argc, char** argv) {
                           "[18446744073709551615,-9223372036854775808]"})
       lmbase->push_back(s);
   }
+  auto lxbase = std::make_shared<std::vector<fam::BaseText>>(fam::base_valid(quick ? 3 : 4, false, 1));
   unsigned lm_maxlen = 0;
   for (auto& s : *lmbase) lm_maxlen = std::max<unsigned>(lm_maxlen, (unsigned)s.size());
 
@@ -268,6 +269,8 @@ int main(int argc, char** argv) {
     tf.push_back(fam::make_LC(quick ? (asan ? 2 : 3) : (asan ? 3 : 4), !quick));
     tf.push_back(fam::make_LM(lmbase, lm_maxlen));
     tf.push_back(fam::make_LW());
+    tf.push_back(fam::make_LX(lxbase, quick ? 3 : 4));
+    tf.push_back(fam::make_LN());
   } else if (prop == "C03") {
     tf.push_back(fam::make_LA(quick ? 7 : 8));
     tf.push_back(fam::make_LA1(quick ? 5 : 6));
@@ -277,6 +280,8 @@ int main(int argc, char** argv) {
     tf.push_back(fam::make_LB2(base6, quick ? 5 : 6));
     tf.push_back(fam::make_LC(quick ? 2 : 3, !quick));
     tf.push_back(fam::make_LW());
+    tf.push_back(fam::make_LX(lxbase, quick ? 3 : 4));
+    tf.push_back(fam::make_LN());
   } else if (prop == "C02") {
     tf.push_back(fam::make_L0(quick ? 4 : 5));
     tf.push_back(fam::make_LA(quick ? 5 : 6));
@@ -285,6 +290,8 @@ int main(int argc, char** argv) {
     tf.push_back(fam::make_LC(quick ? 2 : 3, !quick));
     tf.push_back(fam::make_LM(lmbase, lm_maxlen));
     tf.push_back(fam::make_LW());
+    tf.push_back(fam::make_LX(lxbase, 3));
+    tf.push_back(fam::make_LN());
   } else {
     fprintf(stderr, "jsonenum: --prop C01|C02|C03 required\n");
     return 2;
